@@ -159,8 +159,7 @@ def run(ctx):
                 ctx.violation({"kind": "fixture-missing-from-list", "missing": sorted(missing)[:4]}, {}, files=ws.files)
             ctx.nontrivial((tuple(sorted(str(f) for f in ws.features))[:6], bool(exp_unused), bool(sens)))
             ctx.nontrivial(("ws", i % 7, len(exp_unused) > 0, rc_t))
-            if i < 2:
-                ctx.sample({"spec": ws.spec, "unused_text": out_t[-400:], "exit": rc_t})
+            ctx.sample({"spec": ws.spec, "unused_text": out_t[-400:], "exit": rc_t})
             ctx.count("workspaces")
             shutil.rmtree(root, ignore_errors=True)
     finally:
